@@ -15,6 +15,10 @@ for d in sys.argv[2:]:
     args = [os.path.join(VERIF, "bin/nepcheck"), "-property", pid, "-repo", REPO, "-out", tmp]
     for k, (fn, content) in enumerate(files.items()):
         f = os.path.join(tmp, "s%d.go" % k); open(f, "w").write(content); args += ["-overlay", fn + "=" + f]
+    if os.environ.get("NEPDUMP"):
+        args += ["-dump", os.environ["NEPDUMP"]]
+        r = subprocess.run(args, capture_output=True, text=True)
+        print(r.stdout, r.stderr); shutil.rmtree(tmp, ignore_errors=True); continue
     r = subprocess.run(args, capture_output=True, text=True)
     shutil.rmtree(tmp, ignore_errors=True)
     fired = [l for l in r.stdout.splitlines() if l.startswith("VIOLATED") or l.startswith("UNDECIDED") or "FATAL" in l]
